@@ -328,10 +328,10 @@ def disconnect (m : Sim) : Sim :=
   else m
 
 /-- `n` commands with a long time-out issued back to back (tags y<burst><i>) -/
-def burst (m : Sim) (k n : Nat) : Sim :=
+def burst (m : Sim) (k n : Nat) (short : Nat := 0) : Sim :=
   (List.range n).foldl (fun (m : Sim) i =>
     let r := m.st.created
-    { m with calls := m.calls ++ [(s!"y{k}{i + 1}", r, 0)],
+    { m with calls := m.calls ++ [(s!"y{k}{i + 1}", r, short)],
              st := settle { m.st with created := r + 1, place := upd m.st.place r .ops } }) m
 
 /-- the terminal answers the command `tag` (general or dedicated response echoing its serial) -/
@@ -347,11 +347,11 @@ def respond (m : Sim) (tag : String) : Sim :=
 
 def stepTok (m : Sim) (tok : String) : Sim :=
   if tok = "J" || tok = "J0" then connect m
-  else if tok.startsWith "B" || tok.startsWith "b" then
+  else if tok.startsWith "B" || tok.startsWith "b" || tok.startsWith "s" then
     match ((tok.drop 1).toString).toNat? with
     | some n =>
       let k := (m.calls.filter (fun c => c.1.startsWith "y" && c.1.endsWith "1")).length + 1
-      burst m k n
+      burst m k n (if tok.startsWith "s" then 1 else 0)   -- `s<n>`: the same with the short (150 ms) time-out
     | none => m
   else if tok = "X" then disconnect m
   else if tok = "T" || tok = "U" then
